@@ -13,7 +13,8 @@ var fuzzPool = []string{"if", "else", "for", "switch", "case", "default", "func"
 	"print", "len", "copy", "itoa", "input", "read", "write", "exists", "panic", "int", "bool", "string", "error", "nil", "true", "false",
 	"(", ")", "[", "]", "{", "}", ",", ":", ";", ".", "=", ":=", "==", "!=", "<", "<=", ">", ">=", "&&", "||", "!", "+", "-", "*", "/", "%",
 	"+=", "++", "--", "@", "|", "\n", "\n\n", " ", "x", "y", "f", "s", "0", "1", "-1", "42", "\"a\"", "\"\"", "`r`", "[]int{1}", "[]string{}", "1.5",
-	"99999999999999999999", "/*c*/", "// c\n"}
+	"99999999999999999999", "/*c*/", "// c\n", "/*/", "/*", "*/", "/**/", "//", "\"", "`", "\\", "'", "$", "#", "\r\n", "\t",
+	"a, b := f()", "x, y, z := @echo(\"hi\")", "var s []int", "s[0] = 1", "for i, v := range s {\n}", "switch {\ncase true:\n}", "import \"strings\"\n"}
 
 // mutateSource applies k token-level edits (delete, duplicate, swap, replace, insert) or a truncation.
 func mutateSource(r *rand.Rand, src string, k int) string {
@@ -119,6 +120,15 @@ func importGraphCase(r *rand.Rand) (map[string]string, bool) {
 		sb.WriteString(fmt.Sprintf("func Unused%s() {\n\tprint(\"u\")\n}\n", tag))
 		if r.Intn(2) == 0 {
 			sb.WriteString(fmt.Sprintf("print(\"init %s\", Pub%s(1))\n", tag, tag))
+		}
+		// top-level definitions from multi-value calls, commands and slices in (possibly imported) files
+		switch r.Intn(6) {
+		case 0:
+			sb.WriteString(fmt.Sprintf("func pair%s() (int, string) {\n\treturn 1, \"p\"\n}\nNum%s, Name%s := pair%s()\nvar u%s, w%s = pair%s()\n", tag, tag, tag, tag, tag, tag, tag))
+		case 1:
+			sb.WriteString(fmt.Sprintf("Out%s, errOut%s, Code%s := @echo(\"hi\")\n", tag, tag, tag))
+		case 2:
+			sb.WriteString(fmt.Sprintf("List%s := []int{1, 2}\nList%s[3] = 4\nfor i%s, v%s := range List%s {\n\tprint(i%s, v%s)\n}\n", tag, tag, tag, tag, tag, tag, tag))
 		}
 		// calls through aliases that may or may not exist
 		for j := 0; j < nfiles; j++ {
